@@ -24,6 +24,7 @@ macro_rules! push_loop_undefined_harness {
         #[kani::stub(std::hash::RandomState::new, crate::verif_common::random_state_stub)]
         #[kani::stub(alloc::fmt::format, crate::verif_common::format_stub)]
         #[kani::stub(crate::error::Error::with_source, crate::error::verif_kani::with_source_model)]
+        #[kani::stub(alloc::sync::Arc::drop_slow, crate::verif_common::arc_drop_slow_leak)]
         fn $name() {
             let mk: u8 = kani::any();
             kani::assume(mk < 4);
